@@ -1,5 +1,6 @@
 import RavenModel.Model.PartTree
 import RavenModel.Model.Split
+import RavenModel.Model.Slices
 /-! # C14 — the attributes of a message agree with each other -/
 namespace Raven.Props.C14
 open Raven
@@ -28,6 +29,28 @@ theorem partial_is_slice (payload : Bytes) (o n : Nat) :
     Split.cut payload (o : Int) n = some ((payload.drop o).take n) ∧ Split.cut payload (-(o : Int) - 1) n = none := by
   refine ⟨Split.cut_is_slice payload o n, ?_⟩
   simp [Split.cut]; omega
+
+/-- C14.4  ENVELOPE address lists: the split of an address header loses nothing — the pieces, joined again with the commas
+that separated them, are the header value, for every header value. -/
+theorem envelope_split_lossless (v : Bytes) : GoStr.joinWith b_comma (Slices.splitAddresses v) = v :=
+  Slices.splitAddresses_join v
+
+/-- C14.4'  each address structure is the header text taken apart, nothing lost and nothing invented: the piece is either
+all address, or `name <address> rest` cut at the first `<` and `>` outside quoted strings; the display name is what precedes
+`<` without surrounding blanks and quotes; mailbox and host are the address cut at its first `@` (no `@`: all mailbox). -/
+theorem envelope_address_faithful (piece name mb host : Bytes) (h : Slices.parseOne piece = some (name, mb, host)) :
+    ∃ n e, ((n = [] ∧ e = piece) ∨ ∃ rest, piece = n ++ 60 :: (e ++ 62 :: rest)) ∧
+      name = Slices.trimQuotes (GoStr.trimSpace n) ∧
+      ((e = mb ++ 64 :: host ∧ 64 ∉ mb) ∨ (64 ∉ e ∧ mb = e ∧ host = [])) := by
+  obtain ⟨n, e, hc, hn, hm⟩ := Slices.parseOne_faithful piece name mb host h
+  exact ⟨n, e, Slices.addrCut_faithful piece n e hc, hn, hm⟩
+
+/-- C14.4''  quoted display names may contain commas, angle brackets and escaped quotes without disturbing the address. -/
+theorem envelope_quoted_names :
+    Slices.addressList (b!"\"Doe, John\" <jd@x>, o@y") = some [((b!"Doe, John"), (b!"jd"), (b!"x")), ([], (b!"o"), (b!"y"))] ∧
+    Slices.addressList (b!"\"a <b>\" <m@h>") = some [((b!"a <b>"), (b!"m"), (b!"h"))] ∧
+    Slices.addressList (b!"\"x \\\" y, z\" <m@h>") = some [((b!"x \\\" y, z"), (b!"m"), (b!"h"))] :=
+  ⟨by decide, by decide, by decide⟩
 
 -- non-vacuity
 example : Split.header (b!"A: b\r\n\r\nbody") = b!"A: b\r\n\r\n" ∧ Split.text (b!"A: b\r\n\r\nbody") = b!"body" := by decide
